@@ -131,8 +131,10 @@ impl RestorerJob {
     pub fn increase_crash_counters(&mut self, worker_id: WorkerId) {
         for task in self.tasks.values_mut() {
             match &task.state {
+                // Only the loss of the root (the first worker) restarts a multi-node task,
+                // the loss of any other of its workers is not a crash of the task
                 JobTaskState::Running { started_data }
-                    if started_data.worker_ids.contains(&worker_id) =>
+                    if started_data.worker_ids.first() == Some(&worker_id) =>
                 {
                     task.crash_counter += 1;
                 }
